@@ -90,7 +90,8 @@ func setupTLSConfig(sslOpts *SslOptions) (*tls.Config, error) {
 		if err != nil {
 			return nil, fmt.Errorf("connectionpool: unable to load X509 key pair: %v", err)
 		}
-		tlsConfig.Certificates = append(tlsConfig.Certificates, mycert)
+		// full slice expression: Clone() shares the caller's backing array, never append into its spare capacity
+		tlsConfig.Certificates = append(tlsConfig.Certificates[:len(tlsConfig.Certificates):len(tlsConfig.Certificates)], mycert)
 	}
 
 	return tlsConfig, nil
